@@ -6,6 +6,7 @@ import Autd3.Drv.C06
 import Autd3.Drv.C04
 import Autd3.Drv.C13
 import Autd3.Drv.C05
+import Autd3.Drv.C07
 /-! `autd3model <stream>`: one request line in, one answer line out. -/
 
 partial def loop {σ : Type} (h : IO.FS.Stream) (out : IO.FS.Stream) (step : σ → String → σ × String) (s : σ) : IO Unit := do
@@ -27,6 +28,7 @@ def main (args : List String) : IO UInt32 := do
   | ["sender_async"] => loop stdin stdout Autd3.Drv.C04.step Autd3.Drv.C04.initAsync; return 0
   | ["group"] => loop stdin stdout Autd3.Drv.C13.step Autd3.Drv.C13.init; return 0
   | ["reject"] => loop stdin stdout Autd3.Drv.C05.step Autd3.Drv.C05.init; return 0
+  | ["foci"] => loop stdin stdout Autd3.Drv.C07.step Autd3.Drv.C07.init; return 0
   | [s] =>
     if s.startsWith "fw_" then do loop stdin stdout Autd3.Drv.FwS.step Autd3.Drv.FwS.init; return 0
     else do IO.eprintln "unknown stream"; return 2
